@@ -258,4 +258,8 @@ TRUSTED = [
     "destination.go, run_ledger.go, dlq.go, worker.go (linear chain) and processor/runnable_processor.go, tied to "
     "the code by exact differential on whole passes through the exported funnel API",
     "hook pkg/lifecycle-poc/funnel/verif_hooks.go (reads/sets maxRetryAttempts, maxRetryStall)",
+    "variant probing: the model carries one flag per repaired C08/C09 defect (coq/Funnel/Batch.v fixes); the harness "
+    "runs the minimal input of each defect once on the tree it is built against and passes the observed variant to the "
+    "model (harness/lib/funnelx ProbeFixes); the property monitors do not depend on the flags, so a tree that shows a "
+    "shipped (defective) variant is still reported",
 ]
